@@ -11,6 +11,7 @@ import (
 	"path/filepath"
 	"runtime"
 	"sort"
+	"strconv"
 	"strings"
 	"sync"
 	"time"
@@ -118,8 +119,17 @@ func (e *Engine) runModel(via string, cases []*Case) (map[string][]string, error
 	return res, firstErr
 }
 
+// numWorkers: VERIF_WORKERS=1 runs the cases one after the other (used by bin/check to tell a
+// crash that needs cross-case concurrency from one a single case provokes).
+func numWorkers() int {
+	if v, err := strconv.Atoi(os.Getenv("VERIF_WORKERS")); err == nil && v > 0 {
+		return v
+	}
+	return runtime.NumCPU()
+}
+
 func parallel(n int, f func(i int)) {
-	workers := runtime.NumCPU()
+	workers := numWorkers()
 	var wg sync.WaitGroup
 	ch := make(chan int)
 	for w := 0; w < workers; w++ {
